@@ -74,7 +74,7 @@ func DigestMsiTar(r io.Reader, hash crypto.Hash, extended bool) ([]byte, error) 
 			d2.Write(exmeta)
 			prehash := d2.Sum(nil)
 			d.Write(prehash)
-		} else if hdr.Name == msiDigitalSignature || hdr.Name == msiDigitalSignatureEx {
+		} else if isMsiSignatureName(hdr.Name) {
 			continue
 		}
 		if _, err := io.Copy(d, tr); err != nil {
